@@ -14,8 +14,8 @@ RULE = ('lists of 1-6 part transcriptions (classes: true overlapping windows of 
 ASSUMPTIONS = ['the detected overlap is whatever find_best_overlap returned (recorded), the clauses are arithmetic on it',
                'end-to-end leg: the harness run_ocr reads one glyph per 8-px column block, so part transcriptions are exact windows']
 N = {'quick': 3000, 'thorough': 150000}
-CLASSES = ['windows', 'noisy_windows', 'unrelated', 'empties', 'single_chars', 'repetitive', 'end_to_end', 'enumeration', 'astral', 'long_windows']
-REQUIRED = ['long_overlap_detections_checked', 'overlap_detections_checked', 'no_logits_runs', 'merges_checked', 'steps_checked', 'zero_overlap_steps', 'positive_overlap_steps', 'disjoint_or_empty_steps', 'e2e_lines', 'e2e_split_lines']
+CLASSES = ['windows', 'noisy_windows', 'unrelated', 'empties', 'single_chars', 'repetitive', 'end_to_end', 'enumeration', 'astral', 'long_windows', 'blank_parts']
+REQUIRED = ['reference_merges_compared', 'long_overlap_detections_checked', 'overlap_detections_checked', 'no_logits_runs', 'merges_checked', 'steps_checked', 'zero_overlap_steps', 'positive_overlap_steps', 'disjoint_or_empty_steps', 'e2e_lines', 'e2e_split_lines']
 ALPHA = 'abcdefg '
 
 
@@ -100,6 +100,13 @@ def gen(rng, i, ctx):
         if cls == 'noisy_windows':
             parts = [''.join(('xyz'[int(rng.integers(0, 3))] if rng.random() < 0.12 else c) for c in p) for p in parts]
             parts = [p if rng.random() < 0.8 else p[:max(0, len(p) - 1)] for p in parts]
+    elif cls == 'blank_parts':
+        # windows of a line with wide gaps: a part that holds blanks only, next to parts that begin / end with blanks
+        a_, b_ = rtext(rng, 2, 8, 'abcde:'), rtext(rng, 2, 8, 'abcde')
+        nb = int(rng.integers(1, 4))
+        parts = [a_ + ' ' * int(rng.integers(1, 4)), ' ' * nb, ' ' * int(rng.integers(0, 3)) + b_]
+        if rng.random() < 0.4:
+            parts.insert(0, rtext(rng, 3, 6, 'xyz') + a_[:2])
     elif cls == 'unrelated':
         parts = [rtext(rng, 1, 6, 'abc') for _ in range(int(rng.integers(1, 6)))]
         parts = [p.replace('a', 'q').replace('b', 'u').replace('c', 'v') if k % 2 else p for k, p in enumerate(parts)]
@@ -219,6 +226,18 @@ def check(case, mon, ctx):
     mon.count('merges_checked')
     mon.observe('merged text', [t, int(np.asarray(l).shape[0])])
     info = {'parts': parts}
+    # reference merge, independent of the recorder: at every step the shortest overlap of minimum error rate is removed, half from each side
+    if all(len(p_) <= 80 for p_ in parts) and len(parts) <= 6:
+        ref_t = parts[0]
+        for part in parts[1:]:
+            o_ = min(ref_best_overlaps(ref_t, part)) if ref_t and part else 0
+            ref_t = ref_t[:len(ref_t) - (o_ + 1) // 2] + part[o_ // 2:]
+            if len(ref_t) > 400:
+                break
+        else:
+            mon.count('reference_merges_compared')
+            if t != ref_t:
+                mon.violation('merged-text-equals-the-reference-merge', dict(info, got=t, expected=ref_t))
     if case.get('true_overlap'):
         info['true_overlap'] = case['true_overlap']
     ovs = check_steps(parts, t, list(ctx.log), mon, info)
